@@ -2,6 +2,7 @@
 import itertools
 import json
 import random
+import re
 
 from . import common as C
 
@@ -17,7 +18,7 @@ META = {
                   "is the documented one; a globally rejected file is left alone and a selected one is processed as without "
                   "filter; a rule whose filter rejects the file behaves as deleted, one whose filter accepts as unfiltered; "
                   "changing filters never changes a file on which the decisions are unchanged. On every run the model's "
-                  "predicted (file, rule) applications are compared with what darklua_core::process did on a 10-file tree "
+                  "predicted (file, rule) applications are compared with what darklua_core::process did on a 12-file tree (the same file names at four depths) "
                   "for all filter shapes at the top level and at each position of two 3-rule pipelines, and every output is "
                   "compared with the real output of the unfiltered sub-pipeline of exactly the selected rules.",
     "level_note": "Trusted: Coq kernel + vm_compute; the statement of `selected` (specification); the harness and the python "
@@ -26,15 +27,21 @@ META = {
     "trusted_base": ["Coq 8.16.1 kernel, vm_compute", "Model/Filters.v `selected` (specification)",
                      "harness/crates/c20 + vlib/c20.py (decoding, reference runs)", "wax glob engine (oracle)"],
     "allowed_axioms": [],
-    "rule": "file tree of 10 sources in nested directories; pattern pool of 14 globs (`**`, `**/*.lua`, `src/*.lua`, literal, "
-            "nested, alternatives, non-matching, ...); for the top level and each position of a 3-rule pipeline: every "
-            "(none|single string|one-element list) x (none|single|one-element list) apply/skip combination, then seeded "
+    "rule": "file tree of 12 sources, the same names (a.lua, c.lua) at up to four depths; pattern pool = 26 hand-written globs "
+            "(`**`, `**/a.lua`, `**/sub/a.lua`, `**/sub/*.lua`, `src/**/deep/c.lua`, `**/x/**/a.lua`, `?`, `[ab]`, `[!a]`, `{a,b}`, "
+            "literal, non-matching, ...) + seeded generated ones (optional `**/` prefix, 1-3 literal or wildcard components, optional "
+            "`**` in the middle, optional `/**`; 40 in quick, 190 in thorough); for the top level and each position of a 3-rule "
+            "pipeline: every pattern alone as apply and as skip (string / one-element list), the hand-written ones pairwise, seeded "
             "pairs/triples/empty lists, then filters on several positions at once; two pipelines (comment marks with the "
             "retain_lines generator and a separate output directory; inject_global_value -> compute_expression -> "
-            "remove_unused_if_branch with the dense generator in place). A case is non-trivial when the filters under "
-            "test select some but not all files; distinct by configuration text",
-    "assumptions": ["glob matching (wax) is an oracle: theorems hold for every `matches`; the check uses the table dumped "
-                    "from darklua's FilterPattern::matches on the tree's paths",
+            "remove_unused_if_branch with the dense generator in place). Expected matches come from the glob model "
+            "(Model/FiltersGlob.v, evaluated in Coq) and from an independent python reading of the glob syntax, both compared with "
+            "darklua's engine on every pattern x path. A case is non-trivial when the filters under test select some but not "
+            "all files; distinct by configuration text",
+    "assumptions": ["glob matching (wax) is an oracle in the filter theorems (they hold for every `matches`); the check instantiates "
+                    "it with Model/FiltersGlob.v, which models: `/`-separated components, `**` as a whole component (zero or more "
+                    "components; first, middle, last, alone), literal characters, `?`, `*`, `[..]` with ranges and `[!..]`, "
+                    "`{..,..}` without `/` or nesting; not modelled: alternatives containing `/`, repetitions, flags, escapes",
                     "the path given to the filters is the normalized source path relative to the working directory",
                     "no built-in rule overrides Rule::require_content (the re-entry machinery of apply_rules is not modelled)"],
 }
@@ -49,18 +56,190 @@ if true then print("t") end
 return { name = "%(name)s", flag = _G.FLAG, a = a }
 """
 
+# the same file names at several depths, so that a pattern is told apart by its directory components
 SOURCES = [
-    "src/init.lua", "src/a.lua", "src/b.lua", "src/util/a.lua", "src/util/helper.lua",
-    "src/util/deep/x.lua", "src/util/deep/more/y.lua", "src/other/a.lua", "src/other/z.luau",
-    "src/other/deep/x.lua",
+    "src/init.lua", "src/a.lua", "src/b.lua", "src/ab.lua", "src/sub/a.lua", "src/sub/b.lua", "src/sub/deep/c.lua",
+    "src/x/sub/a.lua", "src/x/deep/c.lua", "src/x/y/sub/a.lua", "src/deep/c.lua", "src/other/z.luau",
 ]
 BYSTANDER = "src/notes.txt"          # never collected: must never change and never be copied
+# paths that are only given to the glob engine / glob model (not files of the tree)
+EXTRA_PATHS = ["a.lua", "sub/a.lua", "src", "src/sub", "lib/sub/a.lua", "src/x/y/z/sub/a.lua", "src/sub/a.luau",
+               "src/suba.lua", "src/sub/a.lua/x", "x/sub/a.lua"]
 
-POOL = [
-    "**", "**/*.lua", "src/*.lua", "src/a.lua", "**/a.lua", "src/util/**", "src/**/deep/**/*.lua",
-    "src/{a,b}.lua", "**/deep/x.lua", "src/other/*", "lib/**/*.lua", "*.lua", "src/util/deep/more/y.lua",
-    "**/*.luau",
+FIXED_POOL = [
+    "**", "**/*.lua", "src/*.lua", "src/a.lua", "**/a.lua", "**/sub/a.lua", "**/sub/*.lua", "src/**/deep/c.lua",
+    "**/x/sub/a.lua", "**/x/**/a.lua", "src/sub/**", "src/**/sub/**", "src/{a,b}.lua", "**/deep/c.lua", "src/other/*",
+    "lib/**/*.lua", "*.lua", "src/x/y/sub/a.lua", "**/*.luau", "**/s?b/[ab].lua", "src/[!a]*.lua", "src/*/sub/*",
+    "**/sub/**/c.lua", "**/src/sub/a.lua", "**/y/sub/a.lua", "src/**/a.lua",
 ]
+POOL = list(FIXED_POOL)              # extended with generated patterns by run()
+POOL_INDEX = {p: i for i, p in enumerate(POOL)}
+
+DIR_COMPS = ["src", "sub", "x", "y", "deep", "other", "*", "s*", "*b", "s?b", "d??p", "{sub,x}", "{x,y,deep}", "[sx]*", "[!s]*"]
+FILE_COMPS = ["a.lua", "b.lua", "c.lua", "init.lua", "ab.lua", "z.luau", "*", "*.lua", "a*.lua", "*b.lua", "?.lua",
+              "[ab].lua", "[!a].lua", "[a-c].lua", "{a,b}.lua", "{a,ab}*", "*.lua*", "a.*", "??.lua"]
+
+
+def gen_pattern(rng):
+    """optional `**/` prefix, 1-3 components (literal or with wildcards), optional `**` in the middle, optional `/**`"""
+    prefix = rng.random() < 0.55
+    suffix = rng.random() < 0.2
+    k = rng.choice([1, 2, 2, 3, 3])
+    comps = []
+    for i in range(k):
+        last = i == k - 1
+        if last and not suffix:
+            comps.append(rng.choice(FILE_COMPS))
+        elif i == 0 and not prefix and rng.random() < 0.75:
+            comps.append("src")
+        else:
+            comps.append(rng.choice(DIR_COMPS))
+    if k >= 2 and rng.random() < 0.25:
+        at = rng.randrange(1, k)
+        comps.insert(at, "**")
+    return ("**/" if prefix else "") + "/".join(comps) + ("/**" if suffix else "")
+
+
+def build_pool(tier, seed):
+    rng = random.Random(seed * 7919 + 13)
+    pool = list(FIXED_POOL)
+    want = len(pool) + (40 if tier == "quick" else 190)
+    guard = 0
+    while len(pool) < want and guard < 5000:
+        guard += 1
+        p = gen_pattern(rng)
+        if p not in pool:
+            pool.append(p)
+    return pool
+
+
+# ---------------------------------------------------------------------------------------------
+# glob patterns: syntax tree (for the Coq model) and, separately, a regular expression (python-side specification)
+
+def parse_component(c):
+    """fragments of one component: ('c', ch) | ('?',) | ('*',) | ('class', neg, [(lo, hi)]) | ('alt', [[atoms]])"""
+    def atoms(text):
+        out, i = [], 0
+        while i < len(text):
+            ch = text[i]
+            if ch == "*":
+                out.append(("*",))
+            elif ch == "?":
+                out.append(("?",))
+            elif ch == "[":
+                j = text.index("]", i)
+                body = text[i + 1:j]
+                neg = body.startswith("!")
+                if neg:
+                    body = body[1:]
+                ranges, k = [], 0
+                while k < len(body):
+                    if k + 2 < len(body) and body[k + 1] == "-":
+                        ranges.append((body[k], body[k + 2]))
+                        k += 3
+                    else:
+                        ranges.append((body[k], body[k]))
+                        k += 1
+                out.append(("class", neg, ranges))
+                i = j
+            else:
+                out.append(("c", ch))
+            i += 1
+        return out
+    frags, i = [], 0
+    while i < len(c):
+        if c[i] == "{":
+            j = c.index("}", i)
+            frags.append(("alt", [atoms(alt) for alt in c[i + 1:j].split(",")]))
+            i = j + 1
+        else:
+            j = c.find("{", i)
+            j = len(c) if j < 0 else j
+            frags.extend(atoms(c[i:j]))
+            i = j
+    return frags
+
+
+def coq_char(ch):
+    if ch == '"' or ord(ch) < 32 or ord(ch) > 126:
+        raise C.CheckBroken("character %r not supported in a pattern" % ch)
+    return '"%s"%%char' % ch
+
+
+def coq_atom(a):
+    if a[0] == "c":
+        return "AChar %s" % coq_char(a[1])
+    if a[0] == "?":
+        return "AAny"
+    if a[0] == "*":
+        return "AStar"
+    return "AClass %s [%s]" % ("true" if a[1] else "false", ";".join("(%s,%s)" % (coq_char(lo), coq_char(hi)) for lo, hi in a[2]))
+
+
+def coq_glob(p):
+    comps = []
+    for c in p.split("/"):
+        if c == "**":
+            comps.append("CTree")
+            continue
+        frags = []
+        for f in parse_component(c):
+            if f[0] == "alt":
+                frags.append("FAlt [%s]" % ";".join("[" + ";".join(coq_atom(a) for a in alt) + "]" for alt in f[1]))
+            else:
+                frags.append("FAtom (%s)" % coq_atom(f))
+        comps.append("CComp [%s]" % ";".join(frags))
+    return "[" + ";".join(comps) + "]"
+
+
+def glob_regex(p):
+    """the documented meaning of a pattern as a regular expression on the whole path (works on the text of the
+    pattern, independently of parse_component / the Coq model)"""
+    def comp_re(c):
+        out, i = "", 0
+        while i < len(c):
+            ch = c[i]
+            if ch == "*":
+                out += "[^/]*"
+            elif ch == "?":
+                out += "[^/]"
+            elif ch == "[":
+                j = c.index("]", i)
+                body = c[i + 1:j]
+                out += "[^/" + re.escape(body[1:]).replace("\\-", "-") + "]" if body.startswith("!") \
+                    else "[" + re.escape(body).replace("\\-", "-") + "]"
+                i = j
+            elif ch == "{":
+                j = c.index("}", i)
+                out += "(?:" + "|".join(comp_re(alt) for alt in c[i + 1:j].split(",")) + ")"
+                i = j
+            else:
+                out += re.escape(ch)
+            i += 1
+        return out
+    comps = p.split("/")
+    n = len(comps)
+    out = ""
+    glued = True            # no separator needed before the next component
+    for idx, c in enumerate(comps):
+        if c == "**":
+            if n == 1:
+                out += ".*"
+            elif idx == 0:
+                out += "(?:[^/]+/)*"
+                glued = True
+            elif idx == n - 1:
+                out += "(?:/[^/]+)*"
+            else:
+                out += "/(?:[^/]+/)*"
+                glued = True
+        else:
+            if idx > 0 and not glued:
+                out += "/"
+            out += comp_re(c)
+            glued = False
+    return re.compile(out)
+
 
 RULESETS = {
     # name: (rules as JSON objects (without filters), generator, input, output)
@@ -107,16 +286,6 @@ def as_list(v):
     return list(v)
 
 
-def shapes_basic():
-    """none, single string, one-element list for every pattern of the pool"""
-    out = [None]
-    for p in POOL:
-        out.append(p)
-    for p in POOL:
-        out.append([p])
-    return out
-
-
 def shapes_random(rng):
     k = rng.random()
     if k < 0.08:
@@ -138,9 +307,8 @@ EMPTY = {"apply_to_files": None, "skip_files": None}
 def gen_filter_cases(tier, seed):
     """list of (top, [f1,f2,f3]) filter assignments"""
     rng = random.Random(seed)
+    quick = tier == "quick"
     cases = []
-    basic = shapes_basic()
-    singles = [None] + POOL
     positions = [0, 1, 2, 3]           # 0 = top level, k = rule k
     def put(pos, flt):
         top = dict(EMPTY)
@@ -151,23 +319,25 @@ def gen_filter_cases(tier, seed):
             flts[pos - 1] = flt
         cases.append((top, flts))
     for pos in positions:
-        # all single-pattern combinations in string form; list form alternates
-        for k, (a, s) in enumerate(itertools.product(singles, singles)):
-            if a is None and s is None:
+        # every pattern alone, as apply and as skip; string form and one-element list alternate
+        for k, pat in enumerate(POOL):
+            put(pos, {"apply_to_files": [pat] if (k + pos) % 2 else pat, "skip_files": None})
+            put(pos, {"apply_to_files": None, "skip_files": pat if (k + pos) % 2 else [pat]})
+        # the hand-written patterns pairwise (apply x skip)
+        fixed = [None] + FIXED_POOL
+        for k, (a, sk) in enumerate(itertools.product(fixed, fixed)):
+            if a is None or sk is None:
+                continue
+            if quick and (k + pos) % 5:
                 continue
             form = (k + pos) % 4
-            a2 = [a] if (a is not None and form in (1, 3)) else a
-            s2 = [s] if (s is not None and form in (2, 3)) else s
-            put(pos, {"apply_to_files": a2, "skip_files": s2})
-        n_random = 250 if tier == "quick" else 1500
-        for _ in range(n_random):
+            put(pos, {"apply_to_files": [a] if form in (1, 3) else a, "skip_files": [sk] if form in (2, 3) else sk})
+        for _ in range(120 if quick else 2500):
+            put(pos, {"apply_to_files": rng.choice(POOL), "skip_files": rng.choice(POOL)})
+        for _ in range(150 if quick else 1500):
             put(pos, {"apply_to_files": shapes_random(rng), "skip_files": shapes_random(rng)})
-    if tier != "quick":
-        for pos in positions:
-            for a, s in itertools.product(basic, basic):
-                put(pos, {"apply_to_files": a, "skip_files": s})
     # several positions at once
-    n_multi = 600 if tier == "quick" else 3000
+    n_multi = 500 if quick else 3000
     for _ in range(n_multi):
         def maybe():
             if rng.random() < 0.3:
@@ -195,7 +365,7 @@ def spec_selected(flt, path, table):
 
 def coq_filter(flt):
     def lst(v):
-        return "[" + ";".join(str(POOL.index(p)) for p in as_list(v)) + "]"
+        return "[" + ";".join(str(POOL_INDEX[p]) for p in as_list(v)) + "]"
     return "(F %s %s)" % (lst(flt.get("apply_to_files")), lst(flt.get("skip_files")))
 
 
@@ -209,15 +379,26 @@ def coq_obs(obs):
     return "[" + ";".join(items) + "]"
 
 
-def preamble(table):
-    pairs = ";".join("(%d,%d)" % (POOL.index(p), SOURCES.index(f))
-                     for (p, f), m in sorted(table.items()) if m and f in SOURCES)
-    return """From Coq Require Import List Bool NArith String.
-From DL Require Import Model.Filters Model.FiltersTrace.
+GLOB_DEFS = """From Coq Require Import List Bool NArith String Ascii.
+From DL Require Import Model.Filters Model.FiltersTrace Model.FiltersGlob.
 Import ListNotations.
 Open Scope N_scope.
 Open Scope string_scope.
-Definition tbl : match_table := [%s]%%N.
+Definition pool : list glob := [%s].
+Definition paths : list string := [%s].
+Definition indexed {A} (l : list A) : list (N * A) := combine (map N.of_nat (seq 0 (List.length l))) l.
+"""
+
+
+def glob_defs(all_paths):
+    return GLOB_DEFS % (";\n".join(coq_glob(p) for p in POOL), ";".join(C.coq_string(f) for f in all_paths))
+
+
+def preamble(all_paths):
+    """the trace model runs on the match table computed by the Coq glob model (Model/FiltersGlob.v) for the pool"""
+    return glob_defs(all_paths) + """Definition tbl : match_table := Eval vm_compute in
+  flat_map (fun pg => flat_map (fun fp => if glob_match (snd pg) (snd fp) then [(fst pg, fst fp)] else [])
+                               (indexed paths)) (indexed pool).
 Fixpoint list_eqb (a b : list N) : bool :=
   match a, b with
   | [], [] => true
@@ -237,7 +418,7 @@ Definition file_ok (c : case) (fo : N * option (list N)) : bool :=
 Definition check_case (c : case) : bool := let '(_, _, obs) := c in forallb (file_ok c) obs.
 Definition diag_case (c : case) : string :=
   let '(_, _, obs) := c in String.concat "" (map (fun fo => if file_ok c fo then "." else "X") obs).
-""" % pairs
+""".replace("%%", "%")
 
 
 # ---------------------------------------------------------------------------------------------
@@ -266,19 +447,46 @@ def run(ctx):
     C.build_harness("dl-c20")
     proofs_ok = C.proof_gate(ctx)
 
+    global POOL, POOL_INDEX
+    POOL = build_pool(ctx.tier, ctx.seed)
+    POOL_INDEX = {p: i for i, p in enumerate(POOL)}
     the_tree = tree()
-    answers = talk([{"match": {"patterns": POOL, "paths": SOURCES + [BYSTANDER]}}])
+    all_paths = SOURCES + [BYSTANDER] + EXTRA_PATHS
+    answers = talk([{"match": {"patterns": POOL, "paths": all_paths}}])
     m = answers[0]
     if m.get("invalid"):
         raise C.CheckBroken("pattern pool contains a pattern darklua rejects: %r" % m["invalid"])
-    table = {}
+    engine = {}      # darklua's FilterPattern::matches (hook)
+    table = {}       # python-side specification of the glob syntax; the expectations below use THIS one
+    glob_bad = []
     for pi, p in enumerate(POOL):
-        for fi, f in enumerate(SOURCES + [BYSTANDER]):
-            table[(p, f)] = bool(m["match"][pi][fi])
+        rx = glob_regex(p)
+        for fi, f in enumerate(all_paths):
+            engine[(p, f)] = bool(m["match"][pi][fi])
+            table[(p, f)] = bool(rx.fullmatch(f))
+            if engine[(p, f)] != table[(p, f)]:
+                glob_bad.append((p, f, engine[(p, f)]))
     # the pool must be discriminating, otherwise the run proves little
     rows = {tuple(table[(p, f)] for f in SOURCES) for p in POOL}
-    if len(rows) < 10:
+    if len(rows) < 25:
         raise C.CheckBroken("pattern pool is not discriminating on the tree (only %d distinct rows)" % len(rows))
+    # glob model (Coq) vs darklua's engine on every pattern x path
+    glob_cases = [(pi, "(%d, [%s])" % (pi, ";".join("true" if engine[(p, f)] else "false" for f in all_paths)))
+                  for pi, p in enumerate(POOL)]
+    glob_model_bad = C.run_coq_cases(ctx.prop, glob_defs(all_paths) + """
+Fixpoint bools_eqb (a b : list bool) : bool :=
+  match a, b with [], [] => true | x :: a', y :: b' => Bool.eqb x y && bools_eqb a' b' | _, _ => false end.
+Definition model_row (pi : N) : list bool := map (glob_match (nth (N.to_nat pi) pool [])) paths.
+Definition check_case (c : N * list bool) : bool := bools_eqb (model_row (fst c)) (snd c).
+Definition diag_case (c : N * list bool) : string :=
+  String.concat "" (map (fun b : bool => if b then "1" else "0") (model_row (fst c))).
+""", glob_cases, chunk=40, tag="glob")
+    multi = sum(1 for p in POOL if p.startswith("**/") and p.count("/") >= 2)
+    ctx.stream("glob semantics: Coq model (Model/FiltersGlob) and python specification vs darklua's FilterPattern::matches, "
+               "every pattern x path", 2 * len(POOL) * len(all_paths), len(rows),
+               [{"pattern": p, "matches": [f for f in all_paths if engine[(p, f)]]} for p in POOL[5:8]],
+               mismatches=len(glob_model_bad) + len(glob_bad), patterns=len(POOL), paths=len(all_paths),
+               tree_prefix_with_several_components=multi)
 
     filter_cases = gen_filter_cases(ctx.tier, ctx.seed)
 
@@ -402,9 +610,9 @@ def run(ctx):
                 samples.append({"ruleset": ruleset, "config": text,
                                 "applied": {SOURCES[fi]: o for fi, o in obs}})
 
-    bad = C.run_coq_cases(ctx.prop, preamble(table), coq_cases, chunk=150 if ctx.tier == "quick" else 600)
+    bad = C.run_coq_cases(ctx.prop, preamble(all_paths), coq_cases, chunk=150 if ctx.tier == "quick" else 600)
 
-    ctx.stream("process(): rules applied per file, Coq model (trace_file on the dumped glob table) vs Rust",
+    ctx.stream("process(): rules applied per file, Coq model (trace_file on the match table of the Coq glob model) vs Rust",
                len(coq_cases) * len(SOURCES), nontrivial, samples, mismatches=len(bad), configurations=len(coq_cases))
     ctx.stream("process(): output of every file == real output of the unfiltered sub-pipeline of the selected rules "
                "(or left alone); other files untouched", (len(coq_cases) + len(spelled)) * (len(SOURCES) + 1), nontrivial, [],
@@ -427,6 +635,16 @@ def run(ctx):
         bad.append((-1, "parse/filter order"))
         case_info[-1] = ("marks", json.dumps(order_bad[0])[:600])
 
+    for pat, f, got in glob_bad[:3]:
+        ctx.violation("FilterPattern::matches disagrees with the documented glob semantics: pattern %r %s path %r"
+                      % (pat, "matches" if got else "does not match", f),
+                      {"pattern": pat, "path": f, "engine": got, "replay": "verif_hooks::filter_pattern_matches(pattern, path)"},
+                      key="glob:%s:%s" % (pat, f))
+    if glob_model_bad and not glob_bad:
+        pi, diag = glob_model_bad[0]
+        bad.append((-2, "glob model"))
+        case_info[-2] = ("glob", json.dumps({"pattern": POOL[pi], "paths": all_paths, "model_row": diag,
+                                             "engine_row": "".join("1" if engine[(POOL[pi], f)] else "0" for f in all_paths)}))
     for ruleset, text, src, why, got in oracle_bad[:4]:
         pos = "top" if "apply_to_files" in json.loads(text) or "skip_files" in json.loads(text) else "rule"
         ctx.violation("filter does not select exactly the matching files: " + why,
